@@ -1,7 +1,9 @@
 """C12 - buffered commands are served fairly: one per user per cycle, nobody starves."""
 import os
+import re
 
 from nvlib import engine as E
+from nvlib import extract as X
 from nvlib.check import Prop
 
 WORDS = ["a", "b", "c", "d", "e", "f", "g", "h", "ab", "cd", "x1", "y2", "k", "q", "zz9"]
@@ -13,10 +15,15 @@ MAX_BYTES_PER_USER = 300            # keeps every interactive_t.text far away fr
 class C12(Prop):
     id = "C12"
     title = "Buffered commands are served fairly: one per user per cycle, nobody starves"
-    lean_modules = ["NV.C12.Props", "NV.C12.Witness", "NV.C12.Trace"]
+    lean_modules = ["NV.C12.Props", "NV.C12.Witness", "NV.C12.Trace", "NV.C12.Fifo3"]
     lean_modules_ = None
     theorems = [
         "NV.C12.flag_bits",
+        "NV.C12.cursorNext_spec",
+        "NV.C12.scanLength_spec",
+        "NV.C12.loopCalls_spec",
+        "NV.C12.grantCond_spec",
+        "NV.C12.countCond_spec",
         "NV.C12.cursor_in_bounds",
         "NV.C12.run_never_crashes",
         "NV.C12.processIO_safe",
@@ -40,6 +47,13 @@ class C12(Prop):
         "NV.C12.judgeStruct_events",
         "NV.C12.judgeEfun_events",
         "NV.C12.judgeEv_events_eq_data",
+        "NV.C12.sim_send",
+        "NV.C12.sim_arrive",
+        "NV.C12.sim_setCall",
+        "NV.C12.sim_serve",
+        "NV.C12.reframe_enc",
+        "NV.C12.consume_line",
+        "NV.C12.consume_char",
     ]
     witness_theorems = []
     consts = [("hasCmdTurn", "HAS_CMD_TURN"), ("cmdInBuf", "CMD_IN_BUF"), ("singleChar", "SINGLE_CHAR"),
@@ -69,6 +83,85 @@ class C12(Prop):
                    "interactive_t.text compaction / overflow rules (more than ~300 bytes per user per case) - property C13",
                    "`!` shell escapes with a pending input_to, ed, snooping, console user (slot 0), telnet negotiation bytes",
                    "a connect and a disconnect of different users inside one process_io (event order of the poller is not modelled)"]
+
+    # ---- tie: scheduling expressions regenerated from the source text ------------------------------------
+    @staticmethod
+    def _c_expr(txt, names):
+        """tiny grammar: <name> | <int> | <expr> (+|-|/|*) <int>   ->  Lean (Nat, truncated `-` and `/` as in the model)"""
+        t = txt.strip()
+        m = re.fullmatch(r"(.+?)\s*([-+/*])\s*(\d+)", t)
+        if m:
+            inner = C12._c_expr(m.group(1), names)
+            return None if inner is None else "(%s %s %s)" % (inner, m.group(2), m.group(3))
+        if re.fullmatch(r"\d+", t):
+            return t
+        return names.get(t)
+
+    def gen_extra(self, ctx, bdir):
+        comm = open(os.path.join(E.REPO, "src/comm.c"), errors="replace").read()
+        back = open(os.path.join(E.REPO, "src/backend.c"), errors="replace").read()
+        out = []
+        # (a) the rotating cursor of get_user_command: both update sites must exist and agree
+        m0 = re.search(r"static char\s*\*\s*get_user_command \(\) \{(.*?)\n\}", comm, re.S)
+        if not m0:
+            raise X.TieBroken("guard:get_user_command", "cannot locate get_user_command() in src/comm.c")
+        body = m0.group(1)
+        sites = re.findall(r"if \(s_next_user(--|\+\+) == (\d+)\)\s*s_next_user = ([^;]+);", body)
+        if len(sites) != 2 or len(set(sites)) != 1:
+            raise X.TieBroken("guard:s_next_user update", "expected two identical cursor updates in get_user_command, found %r" % (sites,))
+        if len(re.findall(r"s_next_user\s*(?:=[^=]|--|\+\+|[-+]=)", body)) != 5:   # init + 2 x (step + wrap)
+            raise X.TieBroken("guard:s_next_user update", "get_user_command changes s_next_user at other places as well")
+        op, k, wrap = sites[0]
+        wexpr = self._c_expr(wrap, {"max_users": "maxUsers"})
+        if wexpr is None:
+            raise X.TieBroken("guard:s_next_user wrap", "wrap expression %r leaves the grammar" % wrap)
+        stepexpr = "c - 1" if op == "--" else "c + 1"
+        out.append("/-- C (get_user_command, both sites): `if (s_next_user%s == %s) s_next_user = %s;` -/\n"
+                   "def cursorNext (c maxUsers : Nat) : Nat := if c = %s then %s else %s" % (op, k, wrap.strip(), k, wexpr, stepexpr))
+        m1 = re.search(r"for \(i = (\d+); i < ([a-z_]+); i\+\+\)\s*\{\s*ip = all_users\[s_next_user\];", body)
+        if not m1 or m1.group(1) != "0":
+            raise X.TieBroken("guard:scan length", "cannot locate the scan loop header of get_user_command")
+        lexpr = self._c_expr(m1.group(2), {"max_users": "maxUsers"})
+        if lexpr is None:
+            raise X.TieBroken("guard:scan length", "scan loop bound %r leaves the grammar" % m1.group(2))
+        out.append("/-- C (get_user_command): `for (i = 0; i < %s; i++)` - iterations of one scan -/\n"
+                   "def scanLength (maxUsers : Nat) : Nat := %s" % (m1.group(2), lexpr))
+        # the turn is tested and consumed where the command is picked, and only there
+        if len(re.findall(r"if \(ip->iflags & HAS_CMD_TURN\)\s*\{\s*ip->iflags &= ~HAS_CMD_TURN;[^{}]*break;[^{}]*\}", body)) != 1 \
+                or len(re.findall(r"HAS_CMD_TURN", body)) != 2:
+            raise X.TieBroken("guard:turn consumed", "get_user_command no longer tests and clears HAS_CMD_TURN exactly where it picks the command")
+        # (b) the bounded command loop of backend()
+        m2 = re.findall(r"for \(i = (\d+); process_user_command \(\) && i < ([^;]+); i\+\+\)\s*;", back)
+        if len(m2) != 1 or m2[0][0] != "0":
+            raise X.TieBroken("guard:command loop", "cannot locate `for (i = 0; process_user_command () && i < B; i++);` in backend()")
+        bexpr = self._c_expr(m2[0][1], {"connected_users": "connectedUsers", "max_users": "maxUsers"})
+        if bexpr is None:
+            raise X.TieBroken("guard:command loop", "loop bound %r leaves the grammar" % m2[0][1])
+        out.append("/-- C (backend): `for (i = 0; process_user_command () && i < %s; i++);` - the call is made before the bound is\n"
+                   "    tested, so `bound + 1` calls are allowed -/\n"
+                   "def loopCalls (connectedUsers maxUsers : Nat) : Nat := %s + 1" % (m2[0][1].strip(), bexpr))
+        # (c) the turn-grant loop of backend()
+        m3 = re.search(r"int connected_users = 0;\s*for \(i = (\d+); i < ([a-z_]+); i\+\+\)\n( *)\{(.*?)\n\3\}\n", back, re.S)
+        if not m3 or m3.group(1) != "0" or m3.group(2) != "max_users":
+            raise X.TieBroken("guard:grant loop", "cannot locate the turn-grant loop `for (i = 0; i < max_users; i++)` in backend()")
+        gbody = m3.group(4)
+        m4 = re.match(r"\s*if \((!?)all_users\[i\]\)\s*\{(.*)\}\s*$", gbody, re.S)
+        if not m4:
+            raise X.TieBroken("guard:grant loop", "grant loop body is not `if (all_users[i]) { ... }`")
+        inner = m4.group(2)
+        # statements executed unconditionally inside the if: cut nested blocks
+        flat = re.sub(r"\{[^{}]*\}", "", inner)
+        flat = re.sub(r"if \([^;{]*\)\s*;", "", flat)
+        if re.search(r"\b(break|continue|return|goto)\b", gbody):
+            raise X.TieBroken("guard:grant loop", "grant loop contains a jump statement")
+        grants = bool(re.search(r"all_users\[i\]->iflags \|= HAS_CMD_TURN;", flat))
+        counts = bool(re.search(r"connected_users\+\+;", flat))
+        neg = "!" if m4.group(1) else ""
+        out.append("/-- C (backend, grant loop over all slots): `if (%sall_users[i]) { ... iflags |= HAS_CMD_TURN ... }` -/\n"
+                   "def grantCond (occupied : Bool) : Bool := %s(%soccupied)" % (neg, "" if grants else "false && ", neg))
+        out.append("/-- C (backend, grant loop): `connected_users++` under the same condition -/\n"
+                   "def countCond (occupied : Bool) : Bool := %s(%soccupied)" % ("" if counts else "false && ", neg))
+        return "\n".join(out)
 
     def prepare(self, ctx):
         self.exe = E.compile_harness("c12", [os.path.join(E.VERIF, "harness/c12/c12.c")])
@@ -103,6 +196,19 @@ class C12(Prop):
            ["cycle"] * 3 + ["close u51", "cycle", "conn", "cycle", "send u53 q~", "send u52 c~", "cycle", "cycle"])
         mk("last-slot-of-table", ["conn"] * 49 + ["cycle"] * 50 + ["send u49 a~b~", "send u48 a~", "send u1 a~b~"] +
            ["cycle"] * 3 + ["send u49 c~", "cycle", "cycle"])
+        mk("table-grows-twice", ["conn"] * 101 + ["cycle"] * 102 + ["send u%d a~b~" % i for i in (1, 2, 50, 51, 99, 100, 101)] +
+           ["cycle"] * 3 + ["close u100", "close u3", "cycle", "conn", "cycle", "conn", "cycle", "send u102 q~", "send u103 r~",
+                            "send u101 c~", "cycle", "cycle"])
+        mk("new-user-below-and-above-cursor", ["script u4 =k kick,u2"] + conns(6) +
+           ["send u%d a~b~c~d~" % i for i in (1, 3, 4, 5, 6)] + ["send u4 k~", "cycle", "cycle", "cycle", "cycle", "cycle",
+            "conn", "cycle", "send u7 x~y~", "cycle", "close u6", "cycle", "conn", "cycle", "conn", "cycle",
+            "send u8 p~", "send u9 q~", "send u1 e~", "cycle", "cycle", "cycle"])
+        mk("getchar-lines-and-empties", ["script u1 =g gc", "script u1 =h gc;it", "script u2 =g it"] + conns(2) +
+           ["send u1 g~c~", "send u2 g~x~", "cycle", "send u1 ~~x~", "send u1 ~", "cycle", "cycle", "cycle", "cycle",
+            "send u1 h~ab", "cycle", "send u1 cd~~e", "cycle", "cycle", "cycle", "send u1 f~", "cycle", "cycle", "cycle"])
+        mk("input-to-noecho", ["script u1 =p itn", "script u1 =q itn;gc", "script u2 =p gc;itn"] + conns(2) +
+           ["send u1 p~secret~a~", "send u2 p~zz", "cycle", "cycle", "cycle", "send u1 q~pw~b~", "send u2 y~", "cycle", "cycle",
+            "cycle", "cycle"])
         mk("kick-waiting-user", ["script u3 =k kick,u1;kick,u2", "script u2 =s kick,u2;gc"] + conns(3) +
            ["send u1 a~b~", "send u2 a~b~", "send u3 k~c~", "cycle", "cycle", "conn", "cycle", "send u4 s~", "cycle", "cycle"])
         mk("self-kick-and-drop", ["script u2 =s kick,u2;ecmd,u1,m1", "script u1 =d drop,u1;ecmd,u1,m1;gc", "script u1 =m1 it"] +
@@ -130,7 +236,7 @@ class C12(Prop):
     def gen_script(self, rng, nusers, level):
         ops = []
         for _ in range(rng.range(1, 3)):
-            k = rng.weighted([("kick", 2), ("drop", 2), ("ecmd", 5 if level > 1 else 0), ("gc", 3), ("it", 2)])
+            k = rng.weighted([("kick", 2), ("drop", 2), ("ecmd", 5 if level > 1 else 0), ("gc", 3), ("it", 2), ("itn", 1)])
             if k in ("kick", "drop"):
                 ops.append("%s,u%d" % (k, rng.range(1, nusers + 1)))
             elif k == "ecmd":
@@ -157,7 +263,7 @@ class C12(Prop):
         big = tier != "quick" and rng.chance(1, 40)
         nmax = rng.range(1, 6) if not rng.chance(1, 6) else rng.range(6, 12)
         if big:
-            nmax = rng.range(50, 58)
+            nmax = rng.range(50, 58) if rng.chance(2, 3) else rng.range(100, 112)
         lines = []
         # scripts
         for _ in range(rng.range(0, 6)):
@@ -173,7 +279,7 @@ class C12(Prop):
             # get_char heavy: lines typed while a get_char() is pending, partial lines typed ahead of it
             for u in range(1, min(nmax, 4) + 1):
                 for wd in (rng.choice(WORDS), rng.choice(WORDS)):
-                    lines.append("script u%d =%s %s" % (u, wd, rng.choice(["gc", "gc", "gc;it", "it", "gc;ecmd,u%d,n1" % u])))
+                    lines.append("script u%d =%s %s" % (u, wd, rng.choice(["gc", "gc", "gc;it", "it", "itn", "gc;ecmd,u%d,n1" % u])))
         nconn = 0
         nacc = 0
         closed = set()
